@@ -24,7 +24,7 @@ pub const ADVANCE: u8 = 4;
 pub const CHECK: u8 = 5;
 pub const POLL_DONE: u8 = 6;
 
-const DEADLINES: [u64; 4] = [5, 10, 20, 30];
+const DEADLINES: [u64; 6] = [5, 10, 20, 30, 1_000, u64::MAX];
 const STEPS: [u64; 3] = [5, 1, 10];
 const CLOCK_MAX_BOUNDED: u64 = 15;
 const CLOCK_MAX_FREE: u64 = 100_000;
